@@ -283,7 +283,24 @@ func runEpisode(cfg epCfg) (ep *epResult) {
 							it := fileItems[f.Arg%len(fileItems)]
 							if it.Size > 0 {
 								noteFault(f.Kind)
-								_ = os.Truncate(srcPathOf(it.RelPath), it.Size/2)
+								cs := int64(sp.Chunk)
+								lastStart := (it.Size - 1) / cs * cs
+								to := it.Size / 2
+								switch f.Arg2 % 6 {
+								case 1:
+									to = it.Size - 1
+								case 2:
+									to = lastStart + (it.Size-lastStart)/2 // inside the final chunk
+								case 3:
+									to = lastStart // exactly the start of the final chunk
+								case 4:
+									to = 0
+								case 5:
+									if it.Size > cs {
+										to = cs + 1 // inside the second chunk
+									}
+								}
+								_ = os.Truncate(srcPathOf(it.RelPath), to)
 							}
 						}
 					case "src_unlink":
@@ -313,7 +330,7 @@ func runEpisode(cfg epCfg) (ep *epResult) {
 							continue
 						}
 						cnt[i]++
-						if cnt[i] == f.At+1 || (f.Arg2 == 1 && cnt[i] > f.At) {
+						if cnt[i] == f.At+1 || (f.Arg2%2 == 1 && cnt[i] > f.At) {
 							noteFault("fs_err:" + f.Op)
 							switch f.Arg % 3 {
 							case 0:
@@ -551,6 +568,26 @@ func genTree(r *verifsim.SplitMix, sp *txSpec, maxFiles int, plainNames bool) {
 	if r.Chance(1, 6) {
 		sp.Dirs = append(sp.Dirs, "sub/empty/nested")
 	}
+	if len(sp.Files) > 0 && r.Chance(1, 3) {
+		// an empty directory whose path is a string prefix of a sibling entry ("logs" next to "logs.txt", "run1" next to "run10")
+		p := sp.Files[r.Intn(len(sp.Files))].P
+		cut := len(p) - 1 - r.Intn(min(4, len(p)-1))
+		if i := strings.LastIndexByte(p, '.'); i > 0 && r.Chance(1, 2) {
+			cut = i
+		}
+		d := p[:cut]
+		if d != "" && !strings.HasSuffix(d, "/") && !seen[d] && !strings.HasSuffix(d, " ") {
+			ok := true
+			for _, f := range sp.Files {
+				if f.P == d || strings.HasPrefix(f.P, d+"/") {
+					ok = false
+				}
+			}
+			if ok {
+				sp.Dirs = append(sp.Dirs, d)
+			}
+		}
+	}
 	sort.Slice(sp.Files, func(i, j int) bool { return sp.Files[i].P < sp.Files[j].P })
 }
 
@@ -634,6 +671,20 @@ type txHarness struct{ prop string }
 
 func (h txHarness) Gen(r *verifsim.SplitMix, tier string, idx int) any {
 	sp := genBase(r, h.prop, 6)
+	if h.prop == "C17" && r.Chance(2, 5) && len(sp.Files) > 0 {
+		// a resumed transfer whose verification fails: a prior state written directly
+		// (bitmap shapes) with the highest marked chunk torn, so that the sender has to
+		// re-send exactly that chunk
+		sp.ResumeS, sp.ResumeR = true, true
+		if sp.Hash == "none" {
+			sp.Hash = "crc32c"
+		}
+		sp.Conns = 1
+		for i := 0; i < 1+r.Intn(2); i++ {
+			f := r.Intn(8)
+			sp.Damage = append(sp.Damage, txDamage{Kind: "synthetic", File: f, Arg: r.Intn(1 << 20)}, txDamage{Kind: "tear_highest", File: f, Arg: r.Intn(1 << 20)})
+		}
+	}
 	return sp
 }
 
@@ -863,6 +914,19 @@ func (h txHarness) Run(spec any) (res verifsim.RunResult) {
 		res.Counters["tree_unwritable"]++
 		return
 	}
+	if len(sp.Damage) > 0 {
+		// prior state for a resumed run (C17's re-send clause)
+		if m0, _, _, err := scanFor(&sp, src); err == nil {
+			os.MkdirAll(sp.outBase(out, m0), 0o755)
+			syntheticSrc = src
+			tornChunks = nil
+			for _, d := range sp.Damage {
+				if k := applyDamage(&sp, out, m0, d); k != "" {
+					res.Counters["prior_state:"+k]++
+				}
+			}
+		}
+	}
 	ep := runEpisode(epCfg{sp: &sp, seed: sp.Seed, src: src, out: out, faultFree: true})
 	fillRes(&res, ep)
 	res.Sample = map[string]any{"spec": sp, "outcome": ep.outcome.String(), "sender": errStr(ep.sendErr), "receiver": errStr(ep.recvErr), "steps": ep.steps, "simulated": ep.sim.String()}
@@ -912,9 +976,11 @@ func (h txHarness) Run(spec any) (res verifsim.RunResult) {
 			res.Skipped = true
 			break
 		}
+		resendsSeen = 0
 		for _, e := range checkDispatch(&sp, ep, bothOK) {
 			v("dispatch", e[0], e[1])
 		}
+		res.Counters["resends_observed"] += int64(resendsSeen)
 	}
 	return
 }
@@ -1067,6 +1133,7 @@ func checkDispatch(sp *txSpec, ep *epResult, success bool) [][2]string {
 			it := keyOf[c.key]
 			if n == 2 && hasInfo[c.key] && verified[c.key] == c.idx {
 				dupPerFile[c.key]++
+				resendsSeen++
 				continue
 			}
 			bad("chunk-sent-twice", fmt.Sprintf("%s chunk %d written %d times (verification point %v)", it.RelPath, c.idx, n, verified[c.key]))
@@ -1121,6 +1188,9 @@ func checkDispatch(sp *txSpec, ep *epResult, success bool) [][2]string {
 	}
 	return out
 }
+
+// resendsSeen counts verified chunks observed twice on the wire (reach probe).
+var resendsSeen int
 
 // independent geometry (not the repo's helpers)
 func chunkTotalRef(size int64, cs uint32) uint32 {
